@@ -9,6 +9,7 @@ import (
 	"encoding/hex"
 	"encoding/json"
 	"fmt"
+	"github.com/ethereum/go-ethereum/metrics"
 	"math/rand"
 	"os"
 	"os/exec"
@@ -399,6 +400,12 @@ func Main(id, level string, fn func(r *Run), opts ...Options) {
 		os.Exit(parent(id, level, tier, seed, opt))
 	}
 	r := NewRun(id, level, tier, seed)
+	if MetricsWanted(tier) {
+		// as cmd/shisui does with --metrics: switched on at run time, after package initialisation and before any
+		// node exists. It cannot be switched off again in a process, so it is a property of the whole run.
+		metrics.Enable()
+		r.Assume("go-ethereum metrics are enabled in this run (the production --metrics configuration; thorough tier and VERIF_METRICS=1), so the metrics-gated branches of the code execute")
+	}
 	fn(r)
 	code := r.Finish()
 	if child && code == 2 {
@@ -408,6 +415,17 @@ func Main(id, level string, fn func(r *Run), opts ...Options) {
 }
 
 const childInconclusive = 3
+
+// MetricsWanted: the thorough tier runs with metrics enabled, the quick tier without (VERIF_METRICS=0/1 overrides).
+func MetricsWanted(tier string) bool {
+	switch os.Getenv("VERIF_METRICS") {
+	case "1":
+		return true
+	case "0":
+		return false
+	}
+	return tier == "thorough"
+}
 
 func NewRun(id, level, tier string, seed int64) *Run {
 	return &Run{
